@@ -32,11 +32,11 @@ R.contract('labtech.runners.base:run_or_load_task',
 
 WAIT_YIELDS = [
     C("Inst_to_Task(value[0]) in old(INFLIGHT(self))", 'a yielded task was in flight when wait() was called'),
-    C("Inst_to_Task(value[0]) not in INFLIGHT(self)", 'AT THE YIELD the task is no longer in flight (the generator may be abandoned here)', serves=('C14', 'C11', 'C10', 'C17', 'C01', 'C02', 'C03')),
+    C("Inst_to_Task(value[0]) not in INFLIGHT(self)", 'AT THE YIELD the task is no longer in flight (the generator may be abandoned here)', serves=('C14',)),
     C("implies(wr_is_meta(value[1]), (Inst_to_Task(value[0]) in RES(self)) and (RES(self)[Inst_to_Task(value[0])].meta == wr_meta(value[1])))", 'a successful task has its result in memory'),
     C("implies(not wr_is_meta(value[1]), Inst_to_Task(value[0]) not in RES(self))", 'a failed task has no result in memory', serves=('C10', 'C02', 'C17')),
     C("implies(old(RESOK(RES(self))), RESOK(RES(self)))", 'held results are the tasks\' own values', serves=('C01',)),
-    C("INV(self)", 'object invariant holds whenever control is handed to the consumer'),
+    C("INV(self)", 'object invariant holds whenever control is handed to the consumer', serves=('C14',)),
 ]
 
 R.implements(f'{SR}.wait', f'{RN}.wait#yield', self_type='Obj[SerialRunner]',
@@ -48,7 +48,9 @@ R.implements(f'{SR}.wait', f'{RN}.wait#yield', self_type='Obj[SerialRunner]',
     rely_ensures=[C("forall('Task', lambda k: implies(k in self.results_map, (k in old(self.results_map)) and (self.results_map[k] == old(self.results_map)[k])))", 'the consumer only removes results')],
     raises={'KeyboardInterrupt': []},
     at_call={'run_or_load_task': [C("implies(not task_submission.use_cache, HANDED(task, self.results_map))",
-                                    'every dependency instance is handed the live results map before the task runs', serves=('C01', 'C02'))]},
+                                    'every dependency instance is handed the live results map before the task runs', serves=('C01', 'C02')),
+                                  C("arg_filtered_context == filter_ctx(Inst_to_Task(task), self.context)",
+                                    'the task is run with its own filter_context applied to the Lab context', serves=('C16',))]},
     cand_locals=('task', 'task_submission'),
     frame=['self.task_submissions', 'self.results_map', 'Inst._results_map', 'Inst.context'],
     candidates=["forall('Inst', lambda i: implies(i in __done__, i._results_map == some(self.results_map)))",
